@@ -261,6 +261,10 @@ impl SubCheck for C10Rewrite {
             &[
                 ("one/my_crate/src/lib.rs".into(), items_src(&c.first.items).into_bytes()),
                 ("two/my_crate/src/lib.rs".into(), items_src(&c.second.items).into_bytes()),
+                // folder mode writes one module per crate with one back-end instance: a small second crate that needs
+                // fewer helpers than the first must come out well-formed too
+                ("one/zz_small/src/lib.rs".into(), b"#[typeshare]\npub struct SmallOne {\n    pub plain: String,\n}\n".to_vec()),
+                ("two/zz_small/src/lib.rs".into(), b"#[typeshare]\npub struct SmallOne {\n    pub plain: String,\n}\n\n#[typeshare]\npub type SmallAlias = String;\n".to_vec()),
                 ("conf/typeshare.toml".into(), cli::cfg_toml(&c.second.cfg).into_bytes()),
             ],
         );
@@ -296,7 +300,15 @@ impl SubCheck for C10Rewrite {
                 let fresh_ok = crate::observe::observe(lang, &String::from_utf8_lossy(bytes), w, false).is_ok();
                 let Some((_, again)) = a.iter().find(|(n, _)| n == name) else { continue };
                 if !fresh_ok {
-                    continue; // ill-formed on its own: the in-process family reports that
+                    // a single-crate output that is ill-formed on its own is the in-process family's business; a module of
+                    // a multi-crate folder run is only ever written here
+                    if c.folder && name.to_lowercase().contains("zz_small") || c.folder && name.to_lowercase().contains("zzsmall") {
+                        out.push(Violation::new(
+                            format!("regeneration/{}/folder/second-module-ill-formed", lang.short()),
+                            format!("{}: folder mode, second crate: `{name}` is not well-formed although the crate only holds a struct with one String field and an alias", lang.name()),
+                        ));
+                    }
+                    continue;
                 }
                 if let Err(e) = crate::observe::observe(lang, &String::from_utf8_lossy(again), w, false) {
                     out.push(Violation::new(
